@@ -404,6 +404,7 @@ def gen_prio1_scenario(rng, tier, style=None, fault=False, stop=None):
     union = set(ps0)
     H = 20
     ops = []
+    removed = []
     nput = 0
     nops = rng.choice([10, 25, 40]) if tier == "quick" else rng.choice([30, 60, 100])
     for _ in range(nops):
@@ -422,6 +423,8 @@ def gen_prio1_scenario(rng, tier, style=None, fault=False, stop=None):
         elif r < 0.85 and style != "plain":
             if rng.random() < 0.6 or not chan_of:
                 p = rng.choice(pool)
+                if removed and rng.random() < 0.4:
+                    p = rng.choice(removed)      # the same priority value registered again (its items may still be unreleased)
                 # a new channel, or the one this priority had before (never one channel under two priorities)
                 ch = had.get(p) if (p in had and p not in chan_of and rng.random() < 0.4) else new_chan()
                 had[p] = ch
@@ -434,6 +437,7 @@ def gen_prio1_scenario(rng, tier, style=None, fault=False, stop=None):
             else:
                 p = rng.choice(sorted(chan_of) + [rng.choice(pool)])
                 chan_of.pop(p, None)
+                removed.append(p)
                 ops.append((9, p, 0, True))
         elif r < 0.92 and open_chans:
             ch = rng.choice(sorted(open_chans))
